@@ -99,6 +99,11 @@ def run_property(pid: str, tier: str, root: str, out_dir: str, evidence_dir: str
             say(f"SELFTEST independent_seeds={sd['seeds']} caught={sd['caught']} missed={len(sd['missed'])} n/a={len(sd['not_applicable'])}")
             for w in sd["missed"]:
                 say(f"SELFTEST-WEAK seed {w}")
+        tw = selftest.get("independent_twins")
+        if tw:
+            say(f"SELFTEST independent_twins={tw['twins']} silent={tw['silent']} noisy={len(tw['noisy'])} n/a={len(tw['not_applicable'])}")
+            for w in tw["noisy"]:
+                say(f"SELFTEST-NOISY twin {w}")
     return 1 if new else 0
 
 
